@@ -64,10 +64,26 @@ def self_field(V, t, byref):
     return None
 
 
+def check_no_inherent(inst, ctx, spath, feature):
+    """the iterator struct has no inherent associated functions: in method-call syntax an inherent `len` / `next` / `count` ...
+    would be chosen before the trait method the other rules decide, for every user of the iterator"""
+    ok = True
+    for im in inst.impls:
+        if 'trait' in im or inst.crate.T(im['self_ty']).get('path') != spath:
+            continue
+        for it in im['items']:
+            ctx.violation('inherent-shadow', inst, feature, 'the iterator struct %s has an inherent item `%s`: method calls resolve to it before any Iterator / DoubleEndedIterator / ExactSizeIterator method of that name' % (
+                spath.split('::')[-1], it['name']), key='%s/inherent-shadow/%s' % (ctx.prop, feature), construct='src/feature/iter/mod.rs::extend_common / src/feature/names.rs')
+            ok = False
+    if ok:
+        ctx.ok('inherent-shadow', inst)
+    return ok
+
+
 def check_forwarding(inst, V, ctx, spath, feature):
     """every method of the Iterator / DoubleEndedIterator / ExactSizeIterator impls forwards to the same method of field 0"""
     con = 'src/feature/iter/mod.rs::extend_common'
-    ok = True
+    ok = check_no_inherent(inst, ctx, spath, feature)
     n = 0
     for trait in (T_ITER, T_DEI, T_ESI):
         for name, path in impl_methods(inst, spath, trait):
@@ -287,7 +303,7 @@ def check_cursor(inst, V, ctx, spath, checked_steps):
     if set(roles) != {'fwd', 'bwd', 'len'} or len(set(roles.values())) != 3:
         ctx.violation('cursor', inst, 'struct', 'cannot identify front cursor, back cursor and remaining-count fields from next()/next_back(): %r' % roles, kind='unrecognised', key='%s/cursor/roles' % ctx.prop, construct=con)
         return None
-    ok = True
+    ok = check_no_inherent(inst, ctx, spath, 'iter')
     allowed = {T_ITER: {'next', 'size_hint'}, T_DEI: {'next_back'}, T_ESI: {'len'}}
     for trait in (T_ITER, T_DEI, T_ESI):
         for name, path in impl_methods(inst, spath, trait):
